@@ -475,6 +475,8 @@ class JsonCommandField(cabc.Sequence):
                 if isinstance(rtn, xlj.LJNode):
                     rtn = rtn.load()
             queue.popleft()
+            # wake up flushers/readers queued behind this ticket
+            self.hist._cond.notify_all()
         return rtn
 
     def i_am_at_the_front(self):
